@@ -589,6 +589,20 @@ fn main() {
                     let ms: Vec<M> = idx.iter().map(|&i| msgs[i].clone()).collect();
                     check_record(&ms, c["version"].as_u64().unwrap() as u16)
                 }
+                Some("size") => {
+                    let (k, n) = (c["field"].as_u64().unwrap() as u8, c["size"].as_u64().unwrap() as usize);
+                    let bytes = |seed: u8| -> Vec<u8> { (0..n).map(|j| seed.wrapping_add((j % 251) as u8)).collect() };
+                    let m = match k {
+                        0 => M::ClientHello { version: 0x0303, random: rnd(1), sid: None, ciphers: (0..n).map(|j| (j as u16).wrapping_mul(257) ^ 0x1301).collect(), comps: vec![0], ext: None },
+                        1 => M::ClientHello { version: 0x0303, random: rnd(2), sid: Some(vec![7; 32]), ciphers: vec![0x1301], comps: (0..n).map(|j| j as u8).collect(), ext: Some(vec![]) },
+                        2 => M::ClientHello { version: 0x0301, random: rnd(3), sid: if n == 0 { None } else { Some(bytes(0x90)) }, ciphers: vec![0xc02f, 0x00ff], comps: vec![0], ext: None },
+                        3 => M::ClientHello { version: 0x0303, random: rnd(4), sid: None, ciphers: vec![0x1301], comps: vec![0], ext: Some(bytes(0xe0)) },
+                        4 => M::Finished(bytes(0xf0)),
+                        5 => M::CkeUnknown(bytes(0x10)),
+                        _ => M::ServerHello { version: 0x0303, random: rnd(5), sid: Some(vec![9; 32]), cipher: 0xc02f, comp: 0, ext: Some(bytes(0xe0)) },
+                    };
+                    check_message(&m)
+                }
                 Some("parsed") => check_parsed(&unhex(c["input"].as_str().unwrap())).unwrap_or_default(),
                 Some("extensions") => check_ext_list(&ext_lists(true)[c["index"].as_u64().unwrap() as usize]),
                 _ => machinery_failure(run.prop, "unknown replay kind"),
@@ -710,6 +724,59 @@ fn main() {
         }
     });
     sink.merge(s3b);
+    // (3c) every size of every variable-length field of the serializable messages (all counts / lengths up to 1100,
+    //      every power of two +-1, every multiple of 512 and the limit in the quick tier; every value in the thorough tier)
+    {
+        let sizes = |max: usize| -> Vec<usize> {
+            if thorough {
+                return (0..=max).collect();
+            }
+            let mut v: Vec<usize> = (0..=1100.min(max)).collect();
+            let mut p = 1usize;
+            while p <= max + 1 {
+                for x in [p.saturating_sub(1), p, p + 1] {
+                    if x <= max {
+                        v.push(x);
+                    }
+                }
+                p *= 2;
+            }
+            v.extend((0..=max).step_by(512));
+            v.extend((0..=max).step_by(509));
+            v.push(max);
+            v.sort();
+            v.dedup();
+            v
+        };
+        let mut items: Vec<(u8, usize)> = Vec::new();
+        items.extend(sizes(32767).into_iter().map(|n| (0u8, n)));
+        items.extend((0..=255usize).map(|n| (1u8, n)));
+        items.extend((0..=32usize).map(|n| (2u8, n)));
+        items.extend(sizes(65535).into_iter().map(|n| (3u8, n)));
+        items.extend(sizes(65535).into_iter().map(|n| (4u8, n)));
+        items.extend(sizes(65535).into_iter().map(|n| (5u8, n)));
+        items.extend(sizes(if thorough { 65535 } else { 2100 }).into_iter().map(|n| (6u8, n)));
+        let s3c = par_run(run.threads, items.len(), |i, sink| {
+            let (k, n) = items[i];
+            let bytes = |seed: u8| -> Vec<u8> { (0..n).map(|j| seed.wrapping_add((j % 251) as u8)).collect() };
+            let m = match k {
+                0 => M::ClientHello { version: 0x0303, random: rnd(1), sid: None, ciphers: (0..n).map(|j| (j as u16).wrapping_mul(257) ^ 0x1301).collect(), comps: vec![0], ext: None },
+                1 => M::ClientHello { version: 0x0303, random: rnd(2), sid: Some(vec![7; 32]), ciphers: vec![0x1301], comps: (0..n).map(|j| j as u8).collect(), ext: Some(vec![]) },
+                2 => M::ClientHello { version: 0x0301, random: rnd(3), sid: if n == 0 { None } else { Some(bytes(0x90)) }, ciphers: vec![0xc02f, 0x00ff], comps: vec![0], ext: None },
+                3 => M::ClientHello { version: 0x0303, random: rnd(4), sid: None, ciphers: vec![0x1301], comps: vec![0], ext: Some(bytes(0xe0)) },
+                4 => M::Finished(bytes(0xf0)),
+                5 => M::CkeUnknown(bytes(0x10)),
+                _ => M::ServerHello { version: 0x0303, random: rnd(5), sid: Some(vec![9; 32]), cipher: 0xc02f, comp: 0, ext: Some(bytes(0xe0)) },
+            };
+            let r = check_message(&m);
+            sink.case(fnv(6, &[(k as u32).to_be_bytes(), (n as u32).to_be_bytes()].concat()), true);
+            sink.bump("size-sweep values", 1);
+            if !r.is_empty() {
+                report(sink, "message", format!("size sweep field {} size {}", k, n), r, json!({"kind":"size","field":k,"size":n}));
+            }
+        });
+        sink.merge(s3c);
+    }
     // (4) extensions
     let el = ext_lists(thorough);
     let nel = el.len();
@@ -730,7 +797,7 @@ fn main() {
     cov.insert("parsed_records".into(), json!(nparsed));
     cov.insert("extension_lists".into(), json!(nel));
     cov.insert("rule".into(), json!(
-        "catalogue of serializable values (ClientHello over 7 versions x 4 session ids x 5 cipher lists incl. 32767 entries x 4 compression lists incl. 255 x 4 extension blocks incl. 65535 bytes; ServerHello 0300..0303 (SSLv3 without extensions); draft-18 ServerHello; ClientKeyExchange Unknown/Dh/Ecdh and Finished with bodies 0/1/2/255/256(/65535/70000); HelloRequest; ChangeCipherSpec), every one of the 14 unsupported message kinds and 25 unsupported extension variants; records of 1..3 small messages, all 65536 record versions; every parsed record of the C03 catalogue; every hello of the field cross product (8 versions x 7 randoms incl. the HelloRetryRequest value x 2 session ids x 60 cipher kinds x 5 (thorough: 256) compression ids x 4 extension blocks) that parses; SNI / max_fragment_length (all 256) / supported_groups (full sweep) singly and in lists. Laws: serialize succeeds, into a slice of every capacity 0..=len+1 and into writers taking 1 / 3 bytes per call the outcome is an error or exactly those bytes, strict reference walker accepts the bytes (all length fields), the parser consumes them entirely and returns the value (two permitted normalisations), serialize(parse(bytes)) == bytes, unsupported -> NotYetImplemented. Non-trivial: every value"));
+        "catalogue of serializable values (ClientHello over 7 versions x 4 session ids x 5 cipher lists incl. 32767 entries x 4 compression lists incl. 255 x 4 extension blocks incl. 65535 bytes; ServerHello 0300..0303 (SSLv3 without extensions); draft-18 ServerHello; ClientKeyExchange Unknown/Dh/Ecdh and Finished with bodies 0/1/2/255/256(/65535/70000); HelloRequest; ChangeCipherSpec), every one of the 14 unsupported message kinds and 25 unsupported extension variants; records of 1..3 small messages, all 65536 record versions; every size of every variable-length field (cipher count 0..32767, compression count, session id, extension block, Finished / ClientKeyExchange body 0..65535: dense to 1100, powers of two +-1, multiples of 512 and 509 in the quick tier, every value in the thorough tier); every parsed record of the C03 catalogue; every hello of the field cross product (8 versions x 7 randoms incl. the HelloRetryRequest value x 2 session ids x 60 cipher kinds x 5 (thorough: 256) compression ids x 4 extension blocks) that parses; SNI / max_fragment_length (all 256) / supported_groups (full sweep) singly and in lists. Laws: serialize succeeds, into a slice of every capacity 0..=len+1 and into writers taking 1 / 3 bytes per call the outcome is an error or exactly those bytes, strict reference walker accepts the bytes (all length fields), the parser consumes them entirely and returns the value (two permitted normalisations), serialize(parse(bytes)) == bytes, unsupported -> NotYetImplemented. Non-trivial: every value"));
     // the same check against the crate built with all cargo features (std, serialize, unstable)
     let mut sink = sink;
     run.all_features_variant(&mut sink);
